@@ -161,6 +161,55 @@ def selftest(ctx):
     return 0 if (ok and not ok2 and not ok3) else 1
 
 
+def regions_cfg(dev, depth=None, maxt=3, maxcounter=3, subjects=3):
+    subs = ", ".join('"s%d"' % (i + 1) for i in range(subjects))
+    base = """CONSTANTS
+  Subject = {%s}
+  MaxAuth = 1
+  MaxT = %d
+  MaxCounter = %d
+  Dev_MultiRegionLeak = %s
+""" % (subs, maxt, maxcounter, "TRUE" if dev else "FALSE")
+    if depth is None:
+        return "SPECIFICATION Spec\n" + base + "INVARIANTS TypeOK RegionsDisjoint HolderIsOpenBest NoGhosts\nPROPERTIES FailedOpenNoEffect\nCHECK_DEADLOCK FALSE\n"
+    return "SPECIFICATION GSpec\n" + base + "  Depth = %d\nINVARIANTS Emit\nCHECK_DEADLOCK FALSE\n" % depth
+
+
+def regions_stage(ctx, thorough):
+    """Several control regions per channel (ControlRegions.tla): design check of the
+    repaired behaviour, the as-written window as a vacuity witness, and replay of every
+    behaviour to depth 4 (gates with their own time ranges) into the real controller."""
+    r = ctx.tlc(AREA, "ControlRegions", "cr.cfg", files={"cr.cfg": regions_cfg(False)}, tag="cr_mc", timeout=1500, workers=8)
+    if r.violated:
+        ctx.notes.append("design: ControlRegions (repaired behaviour) violates %s" % r.violated)
+    w = ctx.tlc(AREA, "ControlRegions", "crw.cfg", files={"crw.cfg": regions_cfg(True)}, tag="cr_asis", timeout=600, workers=4,
+                expect_violation=True)
+    if not w.violated:
+        ctx.notes.append("design: the multi-region leak window no longer produces a counterexample")
+    g = ctx.tlc(AREA, "ControlRegionsGen", "crg.cfg", files={"crg.cfg": regions_cfg(False, depth=4 if not thorough else 5, maxt=3, maxcounter=50)},
+                tag="cr_gen", timeout=1500, workers=8)
+    hp = ctx.path("gen_regions.ndjson")
+    n, smp = write_hists(ctx, g, hp, limit=120000 if not thorough else 600000)
+    if n == 0:
+        raise vlib.Inconclusive("no region histories generated")
+    summ, bad = replay_file(ctx, hp, False, "rp_regions", reps=2)
+    for b in bad[:10]:
+        if b.get("r") != "mismatch":
+            raise vlib.Inconclusive("harness inconclusive: %s" % b)
+        with open(hp) as f:
+            for i, ln in enumerate(f):
+                if i == b["i"]:
+                    hist = json.loads(ln)
+                    break
+        step = hist[b["step"]] if 0 <= b["step"] < len(hist) else {}
+        multi = step.get("err") == "other"
+        sig = "C05 regions %s%s exp=%s" % (step.get("a"), " overlapping two regions" if multi else "", b["exp"].split("=")[0].split("[")[0])
+        ctx.report(sig, "control regions: step %d (%s %s auth=%s range=[%s,%s)) expected %s, real controller gave %s" % (
+            b["step"], step.get("a"), step.get("s"), step.get("auth"), step.get("lo"), step.get("hi"), b["exp"], b["act"]),
+            {"history": hist, "shared": False, "mismatch": b})
+    return r.distinct, r.generated, n
+
+
 def user_stage(ctx, hist_path, n, thorough):
     """A seeded sample of the exclusive-mode behaviours replayed through the public cesium
     writer API (OpenWriter / SetAuthority / Write / Close on an index + data channel)."""
@@ -262,10 +311,15 @@ def run(ctx):
              "cmd": "python3 tools/verif.py replay C05 <this file>"})
     n_user = user_stage(ctx, ctx.path("gen_ex.ndjson"), 3000 if not thorough else 30000, thorough)
     total += n_user
+    rs, rt, rn = regions_stage(ctx, thorough)
+    states += rs
+    trans += rt
+    total += rn
     rounds, events, tstates = concurrent_stage(ctx, thorough)
     cov = {
         "states": states, "transitions": trans,
         "user_level_histories_replayed": n_user,
+        "multi_region_histories_replayed": rn,
         "concurrent_rounds_validated": rounds, "concurrent_events": events, "trace_validation_states": tstates,
         "traces_validated_against_impl": total + rounds,
         "samples": samples,
